@@ -12,6 +12,7 @@ from __future__ import annotations
 import math
 import re
 from fractions import Fraction
+from functools import lru_cache
 
 SQRT2 = math.sqrt(2.0)
 INV_SQRT_2PI = 1.0 / math.sqrt(2.0 * math.pi)
@@ -30,10 +31,16 @@ def radical_inverse(base: int, i: int) -> Fraction:
     return out
 
 
+@lru_cache(maxsize=1 << 16)
+def _radical_inverse_float(base: int, i: int) -> float:
+    """float(radical_inverse(base, i)); memoised (pure function of two integers, immutable result)."""
+    return float(radical_inverse(base, i))
+
+
 def halton_window(base: int, skip: int, n: int) -> list[float]:
     """Elements skip+1 ... skip+n of the radical-inverse sequence (element 0 of the sequence is 0 and is never
-    delivered; 'skipping the first s' drops elements 1..s)."""
-    return [float(radical_inverse(base, i)) for i in range(skip + 1, skip + n + 1)]
+    delivered; 'skipping the first s' drops elements 1..s).  A new list on every call."""
+    return [_radical_inverse_float(base, i) for i in range(skip + 1, skip + n + 1)]
 
 
 # --------------------------------------------------------------------------- normal CDF / quantile
@@ -91,6 +98,7 @@ def _central(p: float) -> float:
     return s * t * SQRT2
 
 
+@lru_cache(maxsize=1 << 16)
 def norm_ppf(p: float) -> float:
     """Standard normal quantile of a double p in (0, 1); accurate to a few 1e-15 relative (certified bracket)."""
     if not 0.0 < p < 1.0:
